@@ -36,7 +36,9 @@ func template(rt *rapid.T) (Frame, []int) {
 		return b
 	}
 	ipv4Fields := []int{0, 2, 3, 4, 5, 6, 7, 8, 9, 12, 16, 19}
-	tcpFields := func(o int) []int { return []int{o, o + 2, o + 4, o + 7, o + 8, o + 11, o + 12, o + 13, o + 14, o + 15, o + 20, o + 21, o + 22, o + 23, o + 24, o + 25} }
+	tcpFields := func(o int) []int {
+		return []int{o, o + 2, o + 4, o + 7, o + 8, o + 11, o + 12, o + 13, o + 14, o + 15, o + 20, o + 21, o + 22, o + 23, o + 24, o + 25}
+	}
 	opts := func() []byte {
 		switch rapid.IntRange(0, 3).Draw(rt, "optsel") {
 		case 0:
